@@ -48,11 +48,11 @@ package ivg
 //@   ensures [C09.resolve C04.resolve] (= result (spec.resolve c *palette *cReg))
 
 //@ contract Is1
-//@   ensures [C09.is1.implies-enc1 C01.is1 C13.is1] (=> result (spec.enc1able c))
+//@   ensures [C09.is1.implies-enc1 C01.is1 C13.is1] (= result (spec.enc1able c))
 //@ contract Is2
-//@   ensures [C09.is2.implies-enc2 C01.is2] (=> result (spec.enc2able c))
+//@   ensures [C09.is2.implies-enc2 C01.is2] (= result (spec.enc2able c))
 //@ contract Is3
-//@   ensures [C09.is3.implies-enc3 C01.is3] (=> result (= (color.RGBA.A c) #xff))
+//@   ensures [C09.is3.implies-enc3 C01.is3] (= result (= (color.RGBA.A c) #xff))
 
 //@ contract (Color).Is1
 //@   inline
